@@ -72,10 +72,18 @@ func (s BPlusTreeStore) Get(table storage.Table, key []byte) (*storage.KVPair, e
 
 func (s BPlusTreeStore) GetLast(table storage.Table) (*storage.KVPair, error) {
 	result := new(storage.KVPair)
-	s.db.DescendGreaterThan(KVItem{[]byte{table.Prefix()}, nil}, func(i btree.Item) bool {
+	prefix := table.Prefix()
+	// the greatest key of this table is the first one, going down from the
+	// start of the next table, that still carries this table's prefix
+	s.db.DescendLessOrEqual(KVItem{[]byte{prefix + 1}, nil}, func(i btree.Item) bool {
 		item := i.(KVItem)
-		result.Key = item.Key[1:]
-		result.Value = item.Value
+		if item.Key[0] > prefix {
+			return true // empty key of the next table
+		}
+		if item.Key[0] == prefix {
+			result.Key = item.Key[1:]
+			result.Value = item.Value
+		}
 		return false
 	})
 	if result.Key == nil {
@@ -154,6 +162,9 @@ func (r *BPlusKVPairReader) Read(buffer []*storage.KVPair) (n int, err error) {
 			return false
 		}
 		key := i.(KVItem).Key
+		if key[0] != r.prefix {
+			return false // end of this table
+		}
 
 		if bytes.Compare(key[:1], r.lastKey[:1]) == 0 && bytes.Compare(key, r.lastKey) != 0 {
 			buffer[n] = &storage.KVPair{key[1:], i.(KVItem).Value}
